@@ -268,11 +268,32 @@ func C12(c *core.Ctx) {
 	if ck := c.Fn("R12.3", "std/ndn/spec_2022", "", "checkInterest"); ck != nil {
 		val, ctx := ssa.Value(ck.Params[0]), ssa.Value(ck.Params[1])
 		var okRets []ssa.Instruction
-		core.Instrs(ck, func(in ssa.Instruction) {
-			if r, ok := in.(*ssa.Return); ok && core.IsNilConst(r.Results[0]) {
-				okRets = append(okRets, r)
-			}
-		})
+		// accepting returns: `return nil`, also inside a helper whose result checkInterest
+		// returns as its own (return helper(...))
+		var collect func(f *ssa.Function, depth int)
+		collect = func(f *ssa.Function, depth int) {
+			core.Instrs(f, func(in ssa.Instruction) {
+				r, ok := in.(*ssa.Return)
+				if !ok || len(r.Results) == 0 {
+					return
+				}
+				last := r.Results[len(r.Results)-1]
+				if core.IsNilConst(last) {
+					okRets = append(okRets, r)
+					return
+				}
+				if cl, isCall := core.Strip(last).(*ssa.Call); isCall && depth < 3 {
+					if cal := cl.Call.StaticCallee(); cal != nil && cal.Blocks != nil {
+						for _, g := range core.Reach(ck) {
+							if g == cal {
+								collect(cal, depth+1)
+							}
+						}
+					}
+				}
+			})
+		}
+		collect(ck, 0)
 		c.Floor("R12.3", "accepting returns of checkInterest", len(okRets), 1)
 		appNonNil := atomFieldNonNil("AppParams!=nil", val, "ApplicationParameters")
 		sigNonNil := atomFieldNonNil("SignatureValue!=nil", val, "SignatureValue")
@@ -326,11 +347,12 @@ func C12(c *core.Ctx) {
 			if !isLastComp(a, "Val") {
 				return 0, 0
 			}
-			sum, ok := core.Strip(b).(*ssa.Call)
-			if !ok || sum.Call.Method == nil || sum.Call.Method.Name() != "Sum" {
-				return 0, 0
+			for _, rv := range core.ReturnedValues(b) {
+				if sum, ok := core.Strip(rv).(*ssa.Call); ok && sum.Call.Method != nil && sum.Call.Method.Name() == "Sum" {
+					return 1, -1
+				}
 			}
-			return 1, -1
+			return 0, 0
 		}}
 		for _, a := range []*core.Atom{typOK, digOK} {
 			g := core.GateDeep(ck, okRets, neg(appNonNil), pos(a))
@@ -344,15 +366,16 @@ func C12(c *core.Ctx) {
 		c.Decide(g.OK && g.PassEdges > 0, "R12.3", "name-required", p.Pos(ck.Pos()), "acceptance requires a Name", "an Interest without Name is accepted")
 		// the hash is fed from context.digestCovered, every buffer
 		fed := false
-		core.Instrs(ck, func(in ssa.Instruction) {
+		slCk := &core.Slicer{P: p, Root: ck}
+		core.InstrsDeep(ck, func(in ssa.Instruction) {
 			ci, ok := in.(ssa.CallInstruction)
 			if !ok || ci.Common().Method == nil || ci.Common().Method.Name() != "Write" {
 				return
 			}
-			ls := sl.Leaves(ci.Common().Args[0])
+			ls := slCk.Leaves(ci.Common().Args[0])
 			if len(ls) == 1 && ls[0].Val == ctx && strings.Join(ls[0].Via, "") == ".digestCovered[]" {
 				h := loopHeader(in.Block())
-				fed = h != nil && everyIterationPasses(ck, h, func(x ssa.Instruction) bool { return x == in })
+				fed = h != nil && everyIterationPasses(in.Parent(), h, func(x ssa.Instruction) bool { return x == in })
 			}
 		})
 		c.Decide(fed, "R12.3", "digest-over-parsed-range", p.Pos(ck.Pos()), "the digest is computed over every buffer of the parser's digestCovered", "checkInterest does not hash every buffer of the parser's digestCovered range")
